@@ -26,7 +26,8 @@ TOL = Fraction(1, 10 ** 8)
 SPECS = [("src/phreeqcpp/prep.cpp", "Phreeqc::convert_units", "gen_convert_units"),
          ("src/phreeqcpp/step.cpp", "Phreeqc::add_solution", "gen_add_solution"),
          ("src/phreeqcpp/step.cpp", "Phreeqc::add_mix", "gen_add_mix"),
-         ("src/phreeqcpp/basicsubs.cpp", "Phreeqc::calc_dens", "gen_calc_dens")]
+         ("src/phreeqcpp/basicsubs.cpp", "Phreeqc::calc_dens", "gen_calc_dens"),
+         ("src/phreeqcpp/ISolutionComp.cxx", "cxxISolutionComp::read", "gen_isc_read")]
 
 
 def gen():
@@ -201,7 +202,7 @@ def gen_system0(rng, family):
 
 def base_variant():
     return {"units": {}, "defunits": {}, "k": 1.0, "perm": None, "renum": {}, "dup": [], "spread": False, "mixorder": None,
-            "selfmix": None, "mixscale": 1.0, "rebatch": {}, "assoc": None}
+            "selfmix": None, "mixscale": 1.0, "rebatch": {}, "assoc": None, "spreadrng": None}
 
 
 def fnum(x):
@@ -278,13 +279,11 @@ class Renderer:
                     cl.append(t)
                     descs.append(d)
                 if prng:
-                    order = list(range(len(cl)))
-                    prng.shuffle(order)
-                    cl = [cl[i] for i in order]
-                    head = L[1:]
-                    prng.shuffle(head)
-                    # units must precede nothing in particular; keep any order of the option lines
-                    L = [L[0]] + head
+                    # option lines (temp, pH, pe, units, water, pressure, density) and constituent lines in ANY order,
+                    # interleaved: in particular `units` may follow constituent lines that rely on it (seeded C15-d)
+                    body = L[1:] + cl
+                    prng.shuffle(body)
+                    L, cl = [L[0]] + body, []
                 lines_desc[s["n"]] = {"water": float(fnum(s["water"] * k * V.get("rebatch", {}).get(s["n"], 1.0))), "defunit": du, "comps": descs}
                 blocks.append("\n".join(L + cl))
         chained = None
@@ -340,9 +339,21 @@ class Renderer:
             if sp.get("gfw"):
                 t += " gfw " + fnum(sp["gfw"])
             sub.append(t)
-        L = ["SOLUTION_SPREAD", "    -units %s" % du, "\t".join(head)]
+        # column order is irrelevant; the block default units may also be given per row in a `units` column that can
+        # stand anywhere, also to the right of the element columns it governs
+        srng = V.get("spreadrng")
+        rowunits = bool(srng) and srng.random() < 0.5
+        cols = list(range(1, len(head)))
+        if rowunits:
+            head.append("units")
+            sub.append("")
+            cols.append(len(head) - 1)
+        if srng:
+            srng.shuffle(cols)
+        cols = [0] + cols
+        L = ["SOLUTION_SPREAD"] + ([] if rowunits else ["    -units %s" % du]) + ["\t".join(head[c] for c in cols)]
         if any(sub):
-            L.append("\t".join(sub))
+            L.append("\t".join(sub[c] for c in cols))
         for s in sols:
             wv = s["water"] * k * V.get("rebatch", {}).get(s["n"], 1.0)
             row = [str(rn("solution", s["n"])), fnum(s["temp"]), fnum(s["pH"]), fnum(s["pe"]), fnum(wv)]
@@ -358,7 +369,9 @@ class Renderer:
                 else:
                     row.append("")
             lines_desc[s["n"]] = {"water": float(fnum(wv)), "defunit": du, "comps": descs}
-            L.append("\t".join(row))
+            if rowunits:
+                row.append(du)
+            L.append("\t".join(row[c] for c in cols))
         return "\n".join(L)
 
     def render_block(self, b, V, rn, k, prng):
@@ -566,6 +579,7 @@ def make_variant(rng, S, t):
         if t in ("units", "spread"):
             if t == "spread":
                 V["spread"] = True
+                V["spreadrng"] = sub()
                 V["defunits"]["spread"] = rng.choice(UNIT_SPELL[rng.choice(UNITS)])
                 for s in S["solutions"]:
                     for e, _ in s["comps"]:
@@ -829,7 +843,7 @@ def attribute_failures(ctx):
     gen_vo = os.path.join(vlib.COQ, "Gen", "Gen_C15_engine.vo")
     gen_t = os.path.getmtime(gen_vo) if os.path.exists(gen_vo) else float("inf")
     independent = {"IPV.C15.Ir", "IPV.C15.Units", "IPV.C15.UnitsProofs", "IPV.C15.Store", "IPV.C15.Mix", "IPV.C15.Checker",
-                   "IPV.C15.ExecLemmas", "IPV.C15.Homog"}       # do not import the generated file
+                   "IPV.C15.ExecLemmas", "IPV.C15.Homog", "IPV.C15.Block"}       # do not import the generated file
     for md in mods:
         rel = md.split(".", 1)[1].replace(".", "/")
         vo = os.path.join(vlib.COQ, rel + ".vo")
